@@ -336,6 +336,21 @@ def run (ctx):
     c = mc[0]
     good = norm(c.func.value).endswith('.match') and norm(kwarg(c, 'consider_other_wildcards', 1)) == 'False'
     ctx.ob('R-AGREE', efp, "the entry's match is applied to the frame's exact match", good, norm(c)[:80], (ftm, c), 'D4')
+  if mc and mc[0].args and isinstance(mc[0].args[0], ast.Name):
+    # the match looked up is extracted from this very frame in this very call: every origin of the variable is a
+    # from_packet(<packet param>, <in_port param>) - not a value kept from an earlier lookup
+    mn = q.enclosing_stmt_node(g, mc[0])
+    pv = q.provenance(g, mn, mc[0].args[0].id) if mn is not None else []
+    def fresh (kind, val):
+      return kind == 'assign' and isinstance(val, ast.Call) and call_name(val) == 'from_packet' and val.args and norm(val.args[0]) == efp.params[1]
+    stale_ = [(d_, kind, val) for d_, kind, val in pv if not fresh(kind, val)]
+    if not pv:
+      ctx.undecided('R-AGREE', efp, "the match that is looked up is extracted from the given frame in this call", "origin of `%s` not found" % mc[0].args[0].id, (ftm, mc[0]), 'D4')
+    else:
+      ctx.ob('R-AGREE', efp, "the match that is looked up is extracted from the given frame in this call", not stale_,
+             "%s = from_packet(%s, ...)" % (mc[0].args[0].id, efp.params[1]) if not stale_ else
+             "`%s` can also come from `%s`, i.e. from state kept between lookups: a frame object that is looked up again after its headers were rewritten (or a reused buffer) is matched by its old field values"
+             % (mc[0].args[0].id, norm(stale_[0][2])[:60] if stale_[0][2] is not None else stale_[0][1]), (ftm, mc[0]), 'D4')
   fpc = [c for c in calls_in(efp.node) if call_name(c) == 'from_packet']
   good = bool(fpc) and norm(kwarg(fpc[0], 'spec_frags', 2)) == 'True' and len(fpc[0].args) >= 2 and norm(fpc[0].args[1]) == efp.params[2]
   ctx.ob('R-AGREE', efp, "the frame is extracted per spec (fragments) with its ingress port", good, norm(fpc[0]) if fpc else "?", efp, 'D4')
